@@ -1,0 +1,10 @@
+//go:build verif
+
+package types
+
+// SkipSealCheck lets a verification harness built with the `verif` tag skip only the ethash seal
+// computation, so that synthetic header branches can be built without mining. It is false by default
+// and does not exist in ordinary builds.
+var SkipSealCheck bool
+
+func sealCheckDisabled() bool { return SkipSealCheck }
